@@ -185,7 +185,21 @@ def resolve(source, recursive):
 
 
 def apply_params(cfg, params):
-    cfg.output.update(**{k.replace("__", "."): _coerce(cfg, k, v) for k, v in params.items()})
+    """Output options go through GeneratorOutput.update exactly like the command line does;
+    `adv` holds settings that have no command line flag (naming conventions, substitutions)."""
+    from xsdata.models import config as C
+    from xsdata.utils import objects
+
+    cfg.output.update(**{k.replace("__", "."): _coerce(cfg, k, v) for k, v in params.items() if k != "adv"})
+    adv = params.get("adv") or {}
+    for key, value in adv.items():
+        if key == "substitutions":
+            for tp, search, replace in value:
+                cfg.substitutions.substitution.append(C.GeneratorSubstitution(type=C.ObjectType(tp), search=search, replace=replace))
+        elif key.endswith(".case"):
+            objects.update(cfg, **{key: C.NameCase(value)})
+        else:
+            objects.update(cfg, **{key: value})
 
 
 def _coerce(cfg, key, value):
@@ -205,6 +219,8 @@ def flags_for(params):
     by_dest = {p.name: p for p in cmd.params if hasattr(p, "on")}
     argv = []
     for key in sorted(params):
+        if key == "adv":
+            continue
         value = params[key]
         opt = by_dest[key]
         if opt.is_flag:
@@ -262,8 +278,10 @@ def generate(source, recursive, params, route, cache, workdir):
                 write_config(cfgfile, params)
                 argv += ["-c", cfgfile]
             elif route == "cli_mixed":
-                keys = sorted(params)
+                keys = sorted(k for k in params if k != "adv")
                 in_file = {k: params[k] for k in keys[::2]}
+                if params.get("adv"):
+                    in_file["adv"] = params["adv"]
                 on_cli = {k: params[k] for k in keys[1::2]}
                 write_config(cfgfile, in_file)
                 argv += ["-c", cfgfile] + flags_for(on_cli)
